@@ -4,7 +4,7 @@
 (* chapter: numerics, instructions, modules/instantiation), independent of    *)
 (* ppci.  One named action per instruction group.                             *)
 (*                                                                            *)
-(* A *case* is  [id, mods : Seq(module), calls : Seq([fn, args : Seq(word)]), *)
+(* A *case* is  [id, mods : Seq(module index), calls : Seq([fn, args]),       *)
 (*               ext : Seq([name, rets : Seq(word)]), fuel : Nat,             *)
 (*               obs : Seq(observation) (optional)]                           *)
 (* The machine instantiates mods[1] (globals, table and element segments,     *)
@@ -26,9 +26,12 @@
 (* abstract module of harness/wasmgen.py, same schema); indices are the       *)
 (* 0-based indices of the binary format.                                      *)
 (* Floating point is outside the model: status "outofmodel".                  *)
-EXTENDS Words, FiniteSets, TLC
+EXTENDS Words, FiniteSets, TLC, Json, IOUtils
 
-CONSTANT Cases
+\* TRACE_FILE = [mods : Seq(module), cases : Seq(case)]; a case names its modules by index into mods
+Input == JsonDeserialize(IOEnv.TRACE_FILE)
+Cases == Input.cases
+ModOf(c, p) == Input.mods[c.mods[p]]
 NChunks == 64
 PageSize == 65536
 ModelMaxPages == 16      \* the model follows memories up to 1 MiB
@@ -54,7 +57,7 @@ VARIABLES chunk,   \* fan-out helper
 vars == <<chunk, i, ph, ci, stack, mem, pages, glob, tab, calls, status, why, ret, steps, olog>>
 
 C == Cases[i]
-M == C.mods[ph]
+M == ModOf(C, ph)
 
 IntT == {"i32", "i64"}
 FloatT == {"f32", "f64"}
@@ -225,7 +228,7 @@ Invoke(m, x, args) ==
     ELSE status' = "run" /\ why' = "" /\ stack' = <<NewFrame(m, x, args)>>
 
 Instantiate(c, p) ==
-    LET m == c.mods[p] IN
+    LET m == ModOf(c, p) IN
     /\ calls' = <<>> /\ ret' = <<>> /\ steps' = 0
     /\ IF ~Supported(m)
        THEN /\ status' = "outofmodel" /\ why' = "module outside the modelled feature set"
@@ -245,7 +248,8 @@ Instantiate(c, p) ==
 Top == stack[Len(stack)]
 F == M.funcs[Top.f - NFI(M) + 1]
 Body == F.body
-Running == i > 0 /\ status = "run"
+Running == i > 0 /\ status = "run" /\ steps < C.fuel
+Keep == UNCHANGED <<chunk, i, ph, ci, olog>>      \* instructions do not touch the batch driver
 HasIns == Top.pc <= Len(Body)
 I == Body[Top.pc]
 Is(ops) == Running /\ HasIns /\ I.op \in ops
@@ -273,17 +277,20 @@ OfWidth(k, t) == Len(V(k)) = Width(t)
 Const ==
     /\ Is({"i32.const", "i64.const"})
     /\ Pure(0, <<I.v>>)
+    /\ Keep
 
 Binary ==
     /\ IsTO(IntT, BinNames)
     /\ IF NV < 2 \/ ~OfWidth(0, I.t) \/ ~OfWidth(1, I.t) THEN Stuck("operand stack")
        ELSE LET a == V(1)  b == V(0)  tr == BinTrap(I.o, a, b) IN
             IF tr # "" THEN Trap(tr) ELSE Pure(2, <<BinVal(I.o, a, b)>>)
+    /\ Keep
 
 Compare ==
     /\ IsTO(IntT, CmpNames)
     /\ IF NV < 2 \/ ~OfWidth(0, I.t) \/ ~OfWidth(1, I.t) THEN Stuck("operand stack")
        ELSE Pure(2, <<Bool32(CmpVal(I.o, V(1), V(0)))>>)
+    /\ Keep
 
 Unary ==
     /\ IsTO(IntT, UnNames \cup ExtNames \cup {"eqz"})
@@ -291,6 +298,7 @@ Unary ==
        ELSE Pure(1, <<IF I.o = "eqz" THEN Bool32(WIsZero(V(0)))
                       ELSE IF I.o \in UnNames THEN UnVal(I.o, V(0))
                       ELSE ExtVal(I.o, V(0))>>)
+    /\ Keep
 
 Convert ==
     /\ Is({"i32.wrap_i64", "i64.extend_i32_s", "i64.extend_i32_u"})
@@ -299,20 +307,24 @@ Convert ==
        ELSE Pure(1, <<CASE I.op = "i32.wrap_i64" -> SubSeq(V(0), 1, 4)
                         [] I.op = "i64.extend_i32_s" -> WResize(V(0), 8, TRUE)
                         [] I.op = "i64.extend_i32_u" -> WResize(V(0), 8, FALSE)>>)
+    /\ Keep
 
 (* ---- parametric and variable instructions ---------------------------------------------------------------- *)
 Drop ==
     /\ Is({"drop"})
     /\ IF NV < 1 THEN Stuck("operand stack") ELSE Pure(1, <<>>)
+    /\ Keep
 
 Select ==
     /\ Is({"select"})
     /\ IF NV < 3 \/ Len(V(0)) # 4 \/ Len(V(1)) # Len(V(2)) THEN Stuck("operand stack")
        ELSE Pure(3, <<IF WIsZero(V(0)) THEN V(1) ELSE V(2)>>)
+    /\ Keep
 
 LocalGet ==
     /\ Is({"local.get"})
     /\ IF I.x >= Len(Top.loc) THEN Stuck("local index") ELSE Pure(0, <<Top.loc[I.x + 1]>>)
+    /\ Keep
 
 LocalSet ==
     /\ Is({"local.set", "local.tee"})
@@ -323,10 +335,12 @@ LocalSet ==
                                       !.vs = IF I.op = "local.set" THEN SubSeq(@, 1, Len(@) - 1) ELSE @]]
             /\ steps' = steps + 1
             /\ UNCHANGED <<status, why, ret, mem, pages, glob, tab, calls>>
+    /\ Keep
 
 GlobalGet ==
     /\ Is({"global.get"})
     /\ IF I.x >= Len(glob) THEN Stuck("global index") ELSE Pure(0, <<glob[I.x + 1]>>)
+    /\ Keep
 
 GlobalSet ==
     /\ Is({"global.set"})
@@ -334,6 +348,7 @@ GlobalSet ==
        THEN Stuck("global index / type / mutability")
        ELSE /\ glob' = [glob EXCEPT ![I.x + 1] = V(0)]
             /\ Step(1, <<>>) /\ UNCHANGED <<mem, pages, tab, calls>>
+    /\ Keep
 
 (* ---- memory instructions ------------------------------------------------------------------------------------- *)
 Load ==
@@ -342,6 +357,7 @@ Load ==
        ELSE LET n == AccBytes(I.t, I.o)  ea == EffAddr(V(0), I.off) IN
             IF ~InBounds(ea, n, pages) THEN Trap("out of bounds memory access")
             ELSE Pure(1, <<WResize(ReadMem(mem, WToNat(ea), n), Width(I.t), AccSigned(I.o))>>)
+    /\ Keep
 
 Store ==
     /\ IsTO(IntT, StoreNames)
@@ -350,10 +366,12 @@ Store ==
             IF ~InBounds(ea, n, pages) THEN Trap("out of bounds memory access")
             ELSE /\ mem' = WriteMem(mem, WToNat(ea), SubSeq(V(0), 1, n))
                  /\ Step(2, <<>>) /\ UNCHANGED <<pages, glob, tab, calls>>
+    /\ Keep
 
 MemorySize ==
     /\ Is({"memory.size"})
     /\ IF pages < 0 THEN Stuck("no memory") ELSE Pure(0, <<I32(pages)>>)
+    /\ Keep
 
 \* memory.grow may fail for lack of resources in any engine; small growth inside the declared maximum is
 \* taken to succeed, growth beyond what the model follows is out of the model
@@ -367,10 +385,11 @@ MemoryGrow ==
             ELSE IF pages + WToNat(d) > ModelMaxPages THEN Halt("outofmodel", "memory larger than the model follows")
             ELSE /\ pages' = pages + WToNat(d)
                  /\ Step(1, <<I32(pages)>>) /\ UNCHANGED <<mem, glob, tab, calls>>
+    /\ Keep
 
 (* ---- control instructions -------------------------------------------------------------------------------------- *)
-Nop == Is({"nop"}) /\ Pure(0, <<>>)
-Unreachable == Is({"unreachable"}) /\ Trap("unreachable")
+Nop == Is({"nop"}) /\ Pure(0, <<>>) /\ Keep
+Unreachable == Is({"unreachable"}) /\ Trap("unreachable") /\ Keep
 
 PushLabel(L, pc2, drop) ==
     /\ stack' = [stack EXCEPT ![Len(stack)] =
@@ -383,12 +402,14 @@ Block ==
     /\ LET se == Scan(Body, Top.pc + 1, 0, 0)  m == Len(BtParams(M, I.bt))  n == Len(BtResults(M, I.bt)) IN
        IF NV < m THEN Stuck("operand stack")
        ELSE PushLabel([cont |-> se[2] + 1, ar |-> n, h |-> NV - m, end |-> se[2]], Top.pc + 1, 0)
+    /\ Keep
 
 Loop ==
     /\ Is({"loop"})
     /\ LET se == Scan(Body, Top.pc + 1, 0, 0)  m == Len(BtParams(M, I.bt)) IN
        IF NV < m THEN Stuck("operand stack")
        ELSE PushLabel([cont |-> Top.pc, ar |-> m, h |-> NV - m, end |-> se[2]], Top.pc + 1, 0)
+    /\ Keep
 
 If ==
     /\ Is({"if"})
@@ -400,6 +421,7 @@ If ==
             ELSE /\ stack' = [stack EXCEPT ![Len(stack)] = [@ EXCEPT !.pc = se[2] + 1, !.vs = SubSeq(@, 1, Len(@) - 1)]]
                  /\ steps' = steps + 1
                  /\ UNCHANGED <<status, why, ret, mem, pages, glob, tab, calls>>
+    /\ Keep
 
 \* `else` reached at the end of the then-branch: continue at the block's end
 Else ==
@@ -408,6 +430,7 @@ Else ==
        ELSE /\ stack' = [stack EXCEPT ![Len(stack)] = [@ EXCEPT !.pc = Top.lbl[Len(Top.lbl)].end]]
             /\ steps' = steps + 1
             /\ UNCHANGED <<status, why, ret, mem, pages, glob, tab, calls>>
+    /\ Keep
 
 \* leave the function: its results are the top values of the operand stack
 FuncReturn ==
@@ -431,9 +454,10 @@ End ==
        ELSE /\ stack' = [stack EXCEPT ![Len(stack)] = [@ EXCEPT !.pc = @ + 1, !.lbl = SubSeq(@, 1, Len(@) - 1)]]
             /\ steps' = steps + 1
             /\ UNCHANGED <<status, why, ret, mem, pages, glob, tab, calls>>
+    /\ Keep
 
 \* the body has been executed to its end
-FuncEnd == Running /\ ~HasIns /\ FuncReturn
+FuncEnd == Running /\ ~HasIns /\ FuncReturn /\ Keep
 
 \* branch to the l-th enclosing label (l = number of labels: the function itself), after dropping `drop` operands
 Branch(l, drop) ==
@@ -463,20 +487,22 @@ Branch(l, drop) ==
               /\ steps' = steps + 1
               /\ UNCHANGED <<status, why, ret, mem, pages, glob, tab, calls>>
 
-Br == Is({"br"}) /\ Branch(I.l, 0)
+Br == Is({"br"}) /\ Branch(I.l, 0) /\ Keep
 
 BrIf ==
     /\ Is({"br_if"})
     /\ IF NV < 1 \/ Len(V(0)) # 4 THEN Stuck("operand stack")
        ELSE IF WIsZero(V(0)) THEN Pure(1, <<>>) ELSE Branch(I.l, 1)
+    /\ Keep
 
 BrTable ==
     /\ Is({"br_table"})
     /\ IF NV < 1 \/ Len(V(0)) # 4 THEN Stuck("operand stack")
        ELSE LET k == V(0) IN
             Branch(IF WFitsNat(k) /\ WToNat(k) < Len(I.ls) THEN I.ls[WToNat(k) + 1] ELSE I.d, 1)
+    /\ Keep
 
-Return == Is({"return"}) /\ Branch(Len(Top.lbl), 0)
+Return == Is({"return"}) /\ Branch(Len(Top.lbl), 0) /\ Keep
 
 \* call function x with the top operands as arguments
 DoCall(x, drop) ==
@@ -503,7 +529,7 @@ DoCall(x, drop) ==
                    /\ steps' = steps + 1
                    /\ UNCHANGED <<status, why, ret, mem, pages, glob, tab, calls>>
 
-Call == Is({"call"}) /\ DoCall(I.x, 0)
+Call == Is({"call"}) /\ DoCall(I.x, 0) /\ Keep
 
 CallIndirect ==
     /\ Is({"call_indirect"})
@@ -516,6 +542,7 @@ CallIndirect ==
                  ELSE LET T == FType(M, x)  E == M.types[I.type + 1] IN
                       IF T.params # E.params \/ T.results # E.results THEN Trap("indirect call type mismatch")
                       ELSE DoCall(x, 1)
+    /\ Keep
 
 KnownOps == {"i32.const", "i64.const", "i32.wrap_i64", "i64.extend_i32_s", "i64.extend_i32_u", "drop", "select",
              "local.get", "local.set", "local.tee", "global.get", "global.set", "memory.size", "memory.grow",
@@ -524,16 +551,15 @@ KnownOps == {"i32.const", "i64.const", "i32.wrap_i64", "i64.extend_i32_s", "i64.
 IntOps == BinNames \cup CmpNames \cup UnNames \cup ExtNames \cup LoadNames \cup StoreNames \cup {"eqz"}
 Modelled(ins) == ins.op \in KnownOps \/ (ins.t \in IntT /\ ins.o \in IntOps)
 \* floating point (and anything else the model does not know) ends the execution without a verdict
-NotModelled == Running /\ HasIns /\ ~Modelled(I) /\ Halt("outofmodel", I.op)
+NotModelled == Running /\ HasIns /\ ~Modelled(I) /\ Halt("outofmodel", I.op) /\ Keep
 
-OutOfFuel == Running /\ steps >= C.fuel
+OutOfFuel == i > 0 /\ status = "run" /\ steps >= C.fuel
 
-Exec == /\ ~OutOfFuel
-        /\ \/ Const \/ Binary \/ Compare \/ Unary \/ Convert \/ Drop \/ Select
-           \/ LocalGet \/ LocalSet \/ GlobalGet \/ GlobalSet \/ Load \/ Store \/ MemorySize \/ MemoryGrow
-           \/ Nop \/ Unreachable \/ Block \/ Loop \/ If \/ Else \/ End \/ FuncEnd
-           \/ Br \/ BrIf \/ BrTable \/ Return \/ Call \/ CallIndirect \/ NotModelled
-        /\ UNCHANGED <<chunk, i, ph, ci, olog>>
+\* one instruction of the running activation
+Exec == \/ Const \/ Binary \/ Compare \/ Unary \/ Convert \/ Drop \/ Select
+        \/ LocalGet \/ LocalSet \/ GlobalGet \/ GlobalSet \/ Load \/ Store \/ MemorySize \/ MemoryGrow
+        \/ Nop \/ Unreachable \/ Block \/ Loop \/ If \/ Else \/ End \/ FuncEnd
+        \/ Br \/ BrIf \/ BrTable \/ Return \/ Call \/ CallIndirect \/ NotModelled
 
 Exhaust == /\ OutOfFuel
            /\ status' = "fuel" /\ why' = "step budget"
